@@ -11,7 +11,13 @@ Engine `taint`:
  (2) oracle for the property itself: every claim of the implementation about a
      local or a parameter is tested with the reference interpreter (lib/c09sem.py,
      runs the *source* program): >= 32 valuations x >= 8 replacement values of the
-     flagged assignment / parameter, comparing the effects the property lists."""
+     flagged assignment / parameter, comparing the effects the property lists;
+ (3) hypotheses of the location theorems: the verified SSA validator SsaCheck.ssa_check (certificate:
+     the implementation's immediate dominators) and nodup_v (all_defs g), evaluated by the model
+     driver on every dumped graph;
+ (4) the real sink set (a local variable of the pass; the harness prints a transcription):
+     sink_consistency (real CS0008 reports vs printed set), the sink probes of lib/c09probe.py
+     (each sink kind in isolation; controls), and a digest of the transcribed source lines."""
 import concurrent.futures
 import json
 import os
@@ -554,7 +560,7 @@ def finish(ctx, proofs, res, feats, alph, nval, nrep):
         "hypothesis_ssa_check_or_unique_defs_false_on": res["n_ssa_fail"],
         "sink_transcription_inconsistent_with_real_reports_on": res["n_sink_incons"],
         "sink_code_digest_matches_transcription": sink_code_digest() == SINK_CODE_SHA256,
-        "sink_probes": {"programs": alph.get("probe", 0), "sink_probe_claims_about_effectful_values": len([c for c in res["corpus_fail"] if c["corpus"].startswith("probe")]),
+        "sink_probes": {"programs": alph.get("probe", 0), "expectation_failures_probes_and_corpus": res["n_corpus_fail"],
                         "control_probes_not_flagged": res["n_control_fail"]},
         "open_statements": OPEN_STATEMENTS,
     })
@@ -565,7 +571,8 @@ OPEN_STATEMENTS = [
     "order irrelevance of the HashMap/HashSet iterations is by construction (lists used as sets, every output canonicalised by "
     "Model.Taint.canon) and observed by the correspondence; a theorem `Permutation l l' -> canon l = canon l'` is not stated",
     "SSA correctness of the cfg w.r.t. the source program (property C14) is not part of C09_noninterference: the theorem speaks "
-    "about executions of the SSA cfg; the source-level oracle covers the gap by search (this is how D20 was visible)",
+    "about executions of the SSA cfg; the source-level oracle covers the gap by search (this is how D20 was visible). What IS now "
+    "checked inside C09: every dumped graph passes the verified validator SsaCheck.ssa_check (C14's theorems then apply to it)",
     "`ment_sound` is a hypothesis; that the exact predicate (`ment s = true <-> mentions g s`) is decidable is not proved",
 ]
 ASSUMPTIONS = [
@@ -573,8 +580,15 @@ ASSUMPTIONS = [
     "branch block; their exactness is property C15's; the non-interference theorem does not depend on them (conditions are sinks)",
     "the type knowledge of a variable node equals the declared type of its (name, suffix) in the SSA cfg's declarations (observed by the "
     "correspondence; the IR dump carries no type per expression node)",
-    "the sink set of run_side_effect_analysis is a local variable: the harness recomputes it from the public taint/constraint API; the "
-    "findings are the real reports (side_effect_analysis is a private module, reached through get_analysis_passes and filtered by code)",
+    "the sink set of run_side_effect_analysis is a local variable: the harness recomputes it from the public taint/constraint API "
+    "(transcription of side_effect_analysis.rs:254-339, pinned by a digest of that text); the findings are the real reports "
+    "(side_effect_analysis is a private module, reached through get_analysis_passes and filtered by code). The transcription is tied to "
+    "the real pass on the implementation side by sink_consistency (real CS0008 report for D <=> multi_step_taint(D) misses the printed "
+    "sink set) and by the sink probes of lib/c09probe.py (each sink kind in isolation; controls that must stay flagged)",
+    "the location of a finding is proved (C09_location_is_unique_definition) to be the meta of the only assignment to the flagged SSA name "
+    "in the dumped graph, under SsaCheck.ssa_check, which the model driver evaluates on every dumped graph with the implementation's "
+    "dominator tree as certificate; that the meta of an SSA statement is the span of the source statement it came from is observed "
+    "(the oracle maps every claim to a source assignment by name and span; an unmappable claim is a violation), not proved",
     "oracle semantics: operators are total (out-of-range reads yield 0, failing asserts are events, no run-time abort), `ext` is an "
     "uninterpreted deterministic function, runs are cut after 600 steps; a constraint 'mentions' an input/output signal if it reads "
     "one directly or reads a local/intermediate signal whose current value was computed from one (data dependence)",
